@@ -159,6 +159,24 @@ def _():
     finally:
         shutil.rmtree(d, ignore_errors=True)
 
+@w("D17")
+def _():
+    import tempfile, pathlib, shutil, email
+    from poetry.core.factory import Factory
+    from poetry.core.masonry.builders.builder import Builder
+    d = pathlib.Path(tempfile.mkdtemp(prefix="pcv-w-"))
+    try:
+        (d / "w").mkdir(); (d / "w" / "__init__.py").write_text("")
+        (d / "pyproject.toml").write_text('[project]\nname="w"\nversion="1.0"\ndescription="x"\nkeywords=["a\\nRequires-Dist: evil"]\n'
+                                          '[build-system]\nrequires=["poetry-core"]\nbuild-backend="poetry.core.masonry.api"\n')
+        try:
+            text = Builder(Factory().create_poetry(d)).get_metadata_content()
+        except ValueError:
+            return True
+        return "Requires-Dist" not in email.message_from_string(text)
+    finally:
+        shutil.rmtree(d, ignore_errors=True)
+
 if __name__ == "__main__":
     ids = sys.argv[1:] or list(W)
     bad = 0
